@@ -222,6 +222,11 @@ static uint64_t memory_page_read(vm_mngr_t* vm_mngr, unsigned int my_size, uint6
 			mpn = get_memory_page_from_address(vm_mngr, ad, 1);
 			if (!mpn)
 				return 0;
+			if ((mpn->access & PAGE_READ) == 0){
+				fprintf(stderr, "access to non readable page!! %"PRIX64"\n", ad);
+				vm_mngr->exception_flags |= EXCEPT_ACCESS_VIOL;
+				return 0;
+			}
 			addr = &((unsigned char*)mpn->ad_hp)[ad - mpn->ad];
 			ret |= ((uint64_t)(*((unsigned char*)addr)&0xFF))<<(index);
 			index +=8;
@@ -302,6 +307,21 @@ static void memory_page_write(vm_mngr_t* vm_mngr, unsigned int my_size,
 	}
 	/* write is multiple page wide */
 	else{
+		unsigned int i;
+
+		/* Check every touched page first: a faulting write must not
+		   be partially done */
+		for (i = 0; i < my_size / 8; i++) {
+			mpn = get_memory_page_from_address(vm_mngr, ad + i, 1);
+			if (!mpn)
+				return;
+			if ((mpn->access & PAGE_WRITE) == 0){
+				fprintf(stderr, "access to non writable page!! %"PRIX64"\n", ad + i);
+				vm_mngr->exception_flags |= EXCEPT_ACCESS_VIOL;
+				return ;
+			}
+		}
+
 		switch(my_size){
 
 		case 8:
